@@ -72,8 +72,9 @@ def row_cases(name, req, rng, n):
         return cases
     if kind == "bin":
         xs, ys = grid(tx, rng, n), grid(ty, rng, n)
-        for x in xs[:12]:
-            for y in ys[:12]:
+        lim = 8 if n <= 2 else 14
+        for x in xs[:lim]:
+            for y in ys[:lim]:
                 if op in ("quo", "rem") and y == 0:
                     continue
                 if op in ("quo", "rem") and tx in SIGNED and x == rng_of(tx)[0] and y == -1 and op == "quo":
@@ -195,11 +196,14 @@ def run(ctx):
     if set(names) != expected:
         ctx.proof["broken"].append({"theorem": "emit-table row set", "why": "rows emitted by the compiler differ from the rows the theorems cover: missing=%s new=%s" % (
             sorted(expected - set(names))[:8], sorted(set(names) - expected)[:8])})
+    ctx.phase('rows-regenerated')
     # 2. proofs over the regenerated table
     ctx.prove("WaVerif.Props.C01Rows", allow_extra_axioms=BV_AX)
     ctx.prove("WaVerif.Props.C01", required=["shl_i32_count_ge_32_wrong", "shr_i32_count_ge_32_wrong", "shl_i64_count_ge_64_wrong",
                                               "shr_u8_count_ge_32_wrong", "quo_i32_minint_wrong"], allow_extra_axioms=BV_AX)
+    ctx.phase('proved')
     model = ctx.build_model("c01")
+    ctx.phase('model-built')
     # 3. operand grid over every row: Wa vs Go vs Lean
     n = 2 if ctx.tier == "quick" else 8
     byname = {r["name"]: r for r in rows if "rejected" not in r}
@@ -253,10 +257,12 @@ def run(ctx):
         for i, op, a, b in diffs[:10]:
             ctx.proof["broken"].append({"theorem": "correspondence: regenerated row + WasmNum semantics vs real execution",
                                         "why": "%s: real Wa run gives %s, Lean model gives %s" % (op, a, b)})
+    ctx.phase('grid-done')
     # 4. the Lean witnesses of the false full-strength statements, replayed on the real compiler
     PROBES = probes()
-    for key, what, body in PROBES:
-        wst, wl, gst, gl = run_both(ctx, warun, body, "probe_" + re.sub(r"\W+", "_", key))
+    with cf.ThreadPoolExecutor(16) as ex:
+        pres_probe = list(ex.map(lambda a: run_both(ctx, warun, a[2], "probe_" + re.sub(r"\W+", "_", a[0])), PROBES))
+    for (key, what, body), (wst, wl, gst, gl) in zip(PROBES, pres_probe):
         if gst != "ok":
             raise vlib.InfraError("go run of probe %s failed: %s" % (key, gl))
         if wst != "ok" or [l.strip() for l in wl] != [l.strip() for l in gl]:
@@ -265,6 +271,7 @@ def run(ctx):
         else:
             # the defect is gone but the theorem about the regenerated row still says it is there: inconsistent
             ctx.notes.append("probe %s now agrees with Go" % key)
+    ctx.phase('probes-done')
     # 5. whole programs from the shared generator (single source, both ways)
     try:
         from gen import progs as genprogs
@@ -276,14 +283,15 @@ def run(ctx):
     from gen import matrix, matrix2
     mprogs = matrix.all_programs() + matrix2.all_programs()
     if ctx.tier == "quick":
-        off = ctx.seed % 6
-        mprogs = mprogs[off::6]
+        off = ctx.seed % 12
+        mprogs = mprogs[off::12]
 
     def mone(a):
         i, (k, src) = a
         return k, src, run_both(ctx, warun, src, "mx%d" % i)
     with cf.ThreadPoolExecutor(16) as ex:
         mres = list(ex.map(mone, enumerate(mprogs)))
+    ctx.phase('matrix-done')
     dist["matrix_programs"] = len(mres)
     dist["matrix_mismatch"] = 0
     for k, src, (wst, wl, gst, gl) in mres:
@@ -291,10 +299,19 @@ def run(ctx):
             continue
         if wst != "ok" or [l.rstrip() for l in wl] != [l.rstrip() for l in gl]:
             dist["matrix_mismatch"] += 1
-            ctx.violation("matrix:%s/%s" % k, "feature-matrix program %s/%s: Wa (%s) %s vs Go %s" % (k[0], k[1], wst, " | ".join(l.strip() for l in wl)[:160], " | ".join(l.strip() for l in gl)[:160]),
+            werr = " ".join(wl)
+            if k[0] in ("methodmix", "methodval") or k[1] in ("methodmix", "methodval") or (k[0] == "I" and "cannot convert" in werr):
+                mkey = "finding:value_receiver"          # the cell uses a value-receiver method by construction
+            elif "expected identifier" in werr and (k[0] in ("sl", "arr") or "[]" in src):
+                mkey = "finding:field_slice_syntax"      # `name []T` / `name [N]T` parameter or field
+            elif k[0] == "arr" and k[1] in ("box", "mapval"):
+                mkey = "finding:array_eq map_array_key"
+            else:
+                mkey = "matrix:%s/%s" % k
+            ctx.violation(mkey, "feature-matrix program %s/%s: Wa (%s) %s vs Go %s" % (k[0], k[1], wst, " | ".join(l.strip() for l in wl)[:160], " | ".join(l.strip() for l in gl)[:160]),
                           {"program": src, "wa_status": wst, "wa": wl[:8], "go": gl[:8]})
     if genprogs is not None:
-        count = 40 if ctx.tier == "quick" else 600
+        count = 24 if ctx.tier == "quick" else 600
         plist = []
         for i in range(count):
             size = ["small", "medium", "large"][i % 3] if ctx.tier == "thorough" else ["small", "medium"][i % 2]
@@ -326,6 +343,7 @@ def run(ctx):
                 key = "program:" + (getattr(genprogs, "classify", lambda *_: "unclassified")(small, a, b, d))
                 ctx.violation(key, "generated program differs (Wa %s vs Go) at output line %d" % (a, first),
                               {"program": small.render_go(), "wa_status": a, "wa": b[:first + 3], "go": d[:first + 3]})
+    ctx.phase('programs-done')
     cov = {
         "programs": dist["programs"] + len(progs) + len(PROBES),
         "disagreements_checked": dist["wa_go_mismatch"] + dist["program_mismatch"],
